@@ -27,6 +27,8 @@ structure JoinState where
   waker : Option Nat := none
   aborted : Bool := false
   handle : Bool := false
+  /-- the task's continuation has started to run (it is no longer `Initialized`) -/
+  started : Bool := false
 deriving Repr, Inhabited
 
 /-- a hand-written one-shot event: the flag and the stored `Waker` (a task id) -/
@@ -306,6 +308,11 @@ def finish (F : Lens U FutHeap) (b : Nat) (ok : Bool) (tlsDtors : Prog U Unit) :
   let (j', effs) := j.publish ok
   K.setL (joinL F b) j'
   runEffs effs
+
+/-- the first thing the continuation of a future task does -/
+def markStarted (F : Lens U FutHeap) (b : Nat) : Prog U Unit := do
+  let j ← K.getL (joinL F b)
+  K.setL (joinL F b) { j with started := true }
 
 /-- The closure of `Task::from_future` around `Wrapper { future }`:
 `while wrapper.poll(cx).is_pending() { sleep_unless_woken(); switch() }` with `Wrapper::poll` =
